@@ -366,6 +366,21 @@ def rule_r2_r3_r4(ctx):
         ok = all(norm(pw.right) in exp_names or pw.right in rec for pw in pows)
     ctx.check("R3", f"{f.name}: ** is right-associative", ok, f, f.node,
               "** does not recurse on its right operand", how="self-recursive call supplies the exponent; no loop")
+    # … and the exponent binds at least as tightly as a unary expression: the call that supplies it is the unary handler or the
+    # power handler itself - not a looser tier, which would swallow the `* / // %` operands that follow the power
+    un = level["unary-"][1].name
+    for pw in pows:
+        src = pw.right
+        if isinstance(src, ast.Name):
+            ds = [a.value for a in own_nodes(f.node) if isinstance(a, ast.Assign) and any(isinstance(t, ast.Name) and t.id == src.id for t in a.targets)]
+            src = ds[0] if len(ds) == 1 else src
+        if isinstance(src, ast.Call) and isinstance(src.func, ast.Attribute) and norm(src.func.value) == "self" and src.func.attr in tier_of:
+            tight = tier_of[src.func.attr] >= tier_of[un]
+            ctx.check("R3", f"{f.name}: the exponent of ** is parsed at the unary tier or tighter", tight, f, src,
+                      f"the exponent is parsed by `{norm(src)}`, a looser tier than the unary handler: everything that follows in the same term becomes part of the exponent - "
+                      "`N**2*M` parses as `N**(2*M)` and `floor(N**2/2)` as `floor(N**(2/2))`, so the text SymPy prints for `N*N/3` (`N**2/3`) re-parses to another expression",
+                      how="tier of the parser method that supplies the right operand of ** (position in the _parse_* chain) >= tier of the unary handler",
+                      construct="exponent parsed at a looser tier")
     # R4
     tok = ctx.repo.cls(f"{SYM}:_ExpressionTokenizer").methods.get("get_token")
     ctx.require(tok is not None, "tokenizer get_token not found")
